@@ -114,6 +114,12 @@ type lexState struct {
 	live      bool
 	flagU     bset // values of the current byte for which the after-newline flag may still be unset
 	flagMust  bool // the after-newline flag is set on every path
+	// line breaks reported through a bool instead of the flag (a helper that returns "saw a newline"):
+	trueFor map[ssa.Value]bset // bool values: the current-byte values for which the value is known to be true
+	wit     map[ssa.Value]bool // bool values that are true on every path on which an unflagged line break was advanced over
+	wdebt   bool               // such a line break may have been advanced over (and is witnessed by wit)
+	debt    bool               // … and is witnessed by nothing: the flag is owed unconditionally
+	flagMay bool               // the flag may have been set since the skipper was entered
 }
 
 func (s *lexState) clone() *lexState {
@@ -129,6 +135,19 @@ func (s *lexState) clone() *lexState {
 	}
 	for k, v := range s.alias {
 		n.alias[k] = v
+	}
+	n.wdebt, n.debt, n.flagMay = s.wdebt, s.debt, s.flagMay
+	if len(s.trueFor) > 0 {
+		n.trueFor = make(map[ssa.Value]bset, len(s.trueFor))
+		for k, v := range s.trueFor {
+			n.trueFor[k] = v
+		}
+	}
+	if len(s.wit) > 0 {
+		n.wit = make(map[ssa.Value]bool, len(s.wit))
+		for k := range s.wit {
+			n.wit[k] = true
+		}
 	}
 	return n
 }
@@ -187,6 +206,41 @@ func (s *lexState) join(o *lexState) bool {
 			ch = true
 		}
 	}
+	// reported line breaks: what is known for a value must hold on both ways in; a way in without a pending report
+	// imposes nothing on the witnesses
+	for k, v := range s.trueFor {
+		ov := o.trueFor[k]
+		if n := v.inter(ov); n != v {
+			if n.empty() {
+				delete(s.trueFor, k)
+			} else {
+				s.trueFor[k] = n
+			}
+			ch = true
+		}
+	}
+	switch {
+	case !o.wdebt:
+	case !s.wdebt:
+		s.wdebt, ch = true, true
+		s.wit = map[ssa.Value]bool{}
+		for k := range o.wit {
+			s.wit[k] = true
+		}
+	default:
+		for k := range s.wit {
+			if !o.wit[k] {
+				delete(s.wit, k)
+				ch = true
+			}
+		}
+	}
+	if o.debt && !s.debt {
+		s.debt, ch = true, true
+	}
+	if o.flagMay && !s.flagMay {
+		s.flagMay, ch = true, true
+	}
 	return ch
 }
 
@@ -196,32 +250,38 @@ type lexCtxKey struct {
 }
 
 type lexCtx struct {
-	fn       *ssa.Function
-	params   map[*ssa.Parameter]bset
-	fparams  map[*ssa.Parameter]*ssa.Function // function-typed parameters bound to a known byte predicate
-	entry    *lexState
-	exit     *lexState // union over returns
-	in       map[*ssa.BasicBlock]*lexState
-	before   map[ssa.Instruction]*lexState // state before calls, returns and sinks
-	edgeDead map[[2]int]bool               // infeasible edges (block index pairs)
-	retVals  map[*ssa.Return]*lexState
+	fn         *ssa.Function
+	params     map[*ssa.Parameter]bset
+	fparams    map[*ssa.Parameter]*ssa.Function // function-typed parameters bound to a known byte predicate
+	entry      *lexState
+	exit       *lexState // union over returns
+	in         map[*ssa.BasicBlock]*lexState
+	before     map[ssa.Instruction]*lexState // state before calls, returns and sinks
+	edgeDead   map[[2]int]bool               // infeasible edges (block index pairs)
+	threaded   map[*ssa.BasicBlock]bool      // short-circuit join blocks that were bypassed by jump threading
+	retVals    map[*ssa.Return]*lexState
+	deferred   map[*ssa.Call]bool  // advances over a possible line break without the flag, witnessed by a bool value
+	flagOver   map[*ssa.Store]bool // stores of a computed value into the flag after it may already have been set
+	witIdx     int                 // result index that reports an unflagged line break on every return (-1: none)
+	pendingWit map[*ssa.Call]int   // calls of a reporting helper: 1 + the index of the reporting result
 }
 
 type lexFacts struct {
-	c        *Ctx
-	recvType *types.Named
-	curFld   *types.Var
-	advance  *ssa.Function // ReadChar
-	peekFn   *ssa.Function // PeekChar
-	preds    map[*ssa.Function]bset
-	ctxs     map[lexCtxKey]*lexCtx
-	order    []lexCtxKey
-	changed  bool
-	nlFlag   *types.Var // the lexer's "had a newline before" flag (copied into Token.AfterNewline)
-	skipper  *ssa.Function
-	skFns    []*ssa.Function
-	base     *ssa.Function
-	problems []string
+	c           *Ctx
+	recvType    *types.Named
+	curFld      *types.Var
+	advance     *ssa.Function // ReadChar
+	peekFn      *ssa.Function // PeekChar
+	preds       map[*ssa.Function]bset
+	ctxs        map[lexCtxKey]*lexCtx
+	order       []lexCtxKey
+	changed     bool
+	nlFlag      *types.Var // the lexer's "had a newline before" flag (copied into Token.AfterNewline)
+	skipper     *ssa.Function
+	skFns       []*ssa.Function
+	threadDepth int
+	base        *ssa.Function
+	problems    []string
 }
 
 func (c *Ctx) lexFacts() *lexFacts {
@@ -454,6 +514,9 @@ func cmpSet(op token.Token, c byte, flipped bool) bset {
 
 // refine applies condition cond with the given polarity to s; returns false if the edge is infeasible.
 func (lf *lexFacts) refine(s *lexState, cx *lexCtx, cond ssa.Value, pol bool) bool {
+	if !pol && s.wdebt && s.wit[cond] {
+		s.wdebt, s.wit = false, nil
+	}
 	switch x := cond.(type) {
 	case *ssa.UnOp:
 		if x.Op == token.NOT {
@@ -520,7 +583,12 @@ func (lf *lexFacts) analyse(cx *lexCtx) {
 	cx.in = map[*ssa.BasicBlock]*lexState{}
 	cx.before = map[ssa.Instruction]*lexState{}
 	cx.edgeDead = map[[2]int]bool{}
+	cx.threaded = map[*ssa.BasicBlock]bool{}
 	cx.retVals = map[*ssa.Return]*lexState{}
+	cx.deferred = map[*ssa.Call]bool{}
+	cx.flagOver = map[*ssa.Store]bool{}
+	cx.witIdx = -1
+	cx.pendingWit = map[*ssa.Call]int{}
 	exit := &lexState{vals: map[ssa.Value]bset{}, alias: map[ssa.Value]int{}}
 	cx.in[f.Blocks[0]] = cx.entry.clone()
 	work := []*ssa.BasicBlock{f.Blocks[0]}
@@ -564,19 +632,117 @@ func (lf *lexFacts) analyse(cx *lexCtx) {
 	if cx.exit == nil {
 		cx.exit = &lexState{vals: map[ssa.Value]bset{}, alias: map[ssa.Value]int{}}
 	}
-	// exit states only carry the cursor sets
-	ex := &lexState{cur: exit.cur, peek: exit.peek, noAdv: exit.noAdv, live: exit.live, vals: map[ssa.Value]bset{}, alias: map[ssa.Value]int{}}
+	// which result reports an unflagged line break: on every return that may owe one, that result is a witness
+	if f.Signature.Results().Len() > 0 {
+		for i := 0; i < f.Signature.Results().Len(); i++ {
+			if b, ok := f.Signature.Results().At(i).Type().Underlying().(*types.Basic); !ok || b.Kind() != types.Bool {
+				continue
+			}
+			good, any := true, false
+			for r, rs := range cx.retVals {
+				if !rs.wdebt {
+					continue
+				}
+				any = true
+				v := r.Results[i]
+				if !isTrueConst(v) && !rs.wit[v] {
+					good = false
+				}
+			}
+			if good && any {
+				cx.witIdx = i
+				break
+			}
+		}
+	}
+	// exit states carry the cursor sets and the flag facts
+	ex := &lexState{cur: exit.cur, peek: exit.peek, noAdv: exit.noAdv, live: exit.live, flagU: exit.flagU, flagMust: exit.flagMust, debt: exit.debt, wdebt: exit.wdebt, flagMay: exit.flagMay, vals: map[ssa.Value]bset{}, alias: map[ssa.Value]int{}}
 	if cx.exit.join(ex) {
 		lf.changed = true
 	}
 }
 
 func (lf *lexFacts) flow(cx *lexCtx, es *lexState, from, to *ssa.BasicBlock, work *[]*ssa.BasicBlock, inWork map[*ssa.BasicBlock]bool) {
+	// jump threading through the join block of a short-circuit condition (`a && b`, `a || b` lowered to a bool phi
+	// that is branched on at once): the edge coming in decides, or further refines, where control goes next — joining
+	// the byte sets of both ways in would lose what the left operand established
+	if len(to.Instrs) >= 2 {
+		if iff, ok := to.Instrs[len(to.Instrs)-1].(*ssa.If); ok {
+			if phi, ok := iff.Cond.(*ssa.Phi); ok && phi.Block() == to {
+				onlyPhis := true
+				for _, in := range to.Instrs[:len(to.Instrs)-1] {
+					if _, isPhi := in.(*ssa.Phi); !isPhi {
+						if _, isDbg := in.(*ssa.DebugRef); !isDbg {
+							onlyPhis = false
+						}
+					}
+				}
+				edge := -1
+				for i, p := range to.Preds {
+					if p == from {
+						edge = i
+					}
+				}
+				if onlyPhis && edge >= 0 && lf.threadDepth < 4 {
+					v := phi.Edges[edge]
+					cx.threaded[to] = true
+					lf.threadDepth++
+					defer func() { lf.threadDepth-- }()
+					for i, succ := range to.Succs {
+						ns := es.clone()
+						if k, ok := v.(*ssa.Const); ok && k.Value != nil && k.Value.Kind() == constant.Bool {
+							if constant.BoolVal(k.Value) != (i == 0) {
+								continue
+							}
+						} else if !lf.refine(ns, cx, v, i == 0) {
+							continue
+						}
+						cx.edgeDead[[2]int{to.Index, i}] = false
+						lf.flow(cx, ns, to, succ, work, inWork)
+					}
+					return
+				}
+			}
+		}
+	}
 	// phis of the successor
 	for _, in := range to.Instrs {
 		phi, ok := in.(*ssa.Phi)
 		if !ok {
 			break
+		}
+		if bt, isB := phi.Type().Underlying().(*types.Basic); isB && bt.Kind() == types.Bool {
+			for i, p := range to.Preds {
+				if p != from {
+					continue
+				}
+				ev := phi.Edges[i]
+				var tf bset
+				switch {
+				case isTrueConst(ev):
+					tf = allBytes
+				case isFalseConst(ev):
+				default:
+					tf = es.trueFor[ev]
+				}
+				// for values the current byte cannot have on this way in, the claim holds vacuously
+				tf = tf.union(allBytes.minus(es.cur))
+				if es.trueFor == nil {
+					es.trueFor = map[ssa.Value]bset{}
+				}
+				es.trueFor[phi] = tf
+				if es.wdebt {
+					if es.wit == nil {
+						es.wit = map[ssa.Value]bool{}
+					}
+					if isTrueConst(ev) || es.wit[ev] {
+						es.wit[phi] = true
+					} else {
+						delete(es.wit, phi)
+					}
+				}
+			}
+			continue
 		}
 		if !isByte(phi.Type()) {
 			continue
@@ -605,6 +771,31 @@ func (lf *lexFacts) flow(cx *lexCtx, es *lexState, from, to *ssa.BasicBlock, wor
 
 func (lf *lexFacts) transfer(cx *lexCtx, s *lexState, in ssa.Instruction) {
 	switch x := in.(type) {
+	case *ssa.BinOp:
+		// cur == c / cur != c as a bool value: the current-byte values for which it is true
+		if (x.Op == token.EQL || x.Op == token.NEQ) && isByte(x.X.Type()) {
+			xv, yv := x.X, x.Y
+			if _, isK := xv.(*ssa.Const); isK {
+				xv, yv = yv, xv
+			}
+			if k, ok := constInt64(unwrap(yv)); ok && k >= 0 && k < 256 && s.alias[unwrap(xv)] == 1 {
+				tf := setOf(byte(k))
+				if x.Op == token.NEQ {
+					tf = allBytes.minus(tf)
+				}
+				if s.trueFor == nil {
+					s.trueFor = map[ssa.Value]bset{}
+				}
+				s.trueFor[x] = tf
+			}
+		}
+	case *ssa.Extract:
+		// the reporting result of a helper that advanced over a line break without setting the flag
+		if call, ok := x.Tuple.(*ssa.Call); ok && cx.pendingWit[call] == x.Index+1 {
+			if s.wdebt && s.wit != nil && s.wit[call] {
+				s.wit[x] = true
+			}
+		}
 	case *ssa.UnOp:
 		if x.Op == token.MUL {
 			if fa, ok := x.X.(*ssa.FieldAddr); ok && fieldOfAddr(fa) == lf.curFld {
@@ -632,6 +823,41 @@ func (lf *lexFacts) transfer(cx *lexCtx, s *lexState, in ssa.Instruction) {
 			s.vals[x] = s.peek
 			s.alias[x] = 2
 		case cal == lf.advance:
+			if lf.nlFlag != nil && s.cur.has('\n') && s.flagU.has('\n') {
+				// a line break may be advanced over with the flag unset: which bool values are true whenever it is one?
+				ws := map[ssa.Value]bool{}
+				for v, tf := range s.trueFor {
+					if tf.has('\n') {
+						ws[v] = true
+					}
+				}
+				if s.wdebt {
+					for k := range ws {
+						if !s.wit[k] {
+							delete(ws, k)
+						}
+					}
+				}
+				if len(ws) == 0 {
+					s.debt = true
+					if cx.deferred != nil {
+						cx.deferred[x] = false
+					}
+				} else {
+					s.wdebt, s.wit = true, ws
+					if cx.deferred != nil {
+						cx.deferred[x] = true
+					}
+				}
+			}
+			// what was known per value of the old current byte holds afterwards only if it held for all of them
+			for v, tf := range s.trueFor {
+				if s.cur.sub(tf) {
+					s.trueFor[v] = allBytes
+				} else {
+					delete(s.trueFor, v)
+				}
+			}
 			lf.advanceState(s)
 		case cal != nil && cal.Pkg == cx.fn.Pkg && cal.Signature.Recv() != nil && namedIs(cal.Signature.Recv().Type(), "lexer", "Lexer"):
 			// another method of the lexer: analyse it in the context of this call
@@ -666,7 +892,7 @@ func (lf *lexFacts) transfer(cx *lexCtx, s *lexState, in ssa.Instruction) {
 				}
 			}
 			callee := lf.context(cal, params, fparams)
-			entry := &lexState{cur: s.cur, peek: s.peek, noAdv: s.noAdv, flagU: s.flagU, flagMust: s.flagMust, live: true, vals: map[ssa.Value]bset{}, alias: map[ssa.Value]int{}}
+			entry := &lexState{cur: s.cur, peek: s.peek, noAdv: s.noAdv, flagU: s.flagU, flagMust: s.flagMust, flagMay: s.flagMay, live: true, vals: map[ssa.Value]bset{}, alias: map[ssa.Value]int{}}
 			if callee.entry.join(entry) {
 				lf.changed = true
 			}
@@ -674,6 +900,24 @@ func (lf *lexFacts) transfer(cx *lexCtx, s *lexState, in ssa.Instruction) {
 				s.cur, s.peek = callee.exit.cur, callee.exit.peek
 				s.noAdv = s.noAdv && callee.exit.noAdv
 				s.flagU, s.flagMust = callee.exit.flagU, callee.exit.flagMust
+				s.flagMay = s.flagMay || callee.exit.flagMay
+				if callee.exit.debt {
+					s.debt = true
+				}
+				if callee.exit.wdebt {
+					// the callee may have advanced over a line break without the flag: it must report it in a result
+					if callee.witIdx < 0 || s.wdebt {
+						s.debt = true
+					} else {
+						s.wdebt, s.wit = true, map[ssa.Value]bool{x: true}
+						if cx.pendingWit != nil {
+							cx.pendingWit[x] = callee.witIdx + 1
+						}
+					}
+				}
+				for k := range s.trueFor {
+					delete(s.trueFor, k)
+				}
 			} else if lf.mayAdvance(cal) {
 				// not analysed yet: nothing flows past this call in this round
 				s.live = false
@@ -700,8 +944,20 @@ func (lf *lexFacts) transfer(cx *lexCtx, s *lexState, in ssa.Instruction) {
 			cx.before[x] = s.clone()
 			if isTrueConst(x.Val) {
 				s.flagU, s.flagMust = bset{}, true
+				s.debt, s.wdebt, s.wit, s.flagMay = false, false, nil, true
 			} else {
 				s.flagU, s.flagMust = s.cur, false
+				if !isFalseConst(x.Val) {
+					// a computed value: it settles a pending report when it is one of its witnesses (the flag is then true
+					// whenever the line break happened) — but it may also clear a flag that was already set
+					if cx.flagOver != nil {
+						cx.flagOver[x] = s.flagMay
+					}
+					if s.wit[x.Val] {
+						s.wdebt, s.wit = false, nil
+					}
+					s.flagMay = true
+				}
 			}
 		}
 	}
